@@ -242,6 +242,8 @@ PROPS["C03"] = {
         "C03.C03_chain_sound", "C03.C03_finite", "C03.C03_rejects_nonchained_signers", "C03.C03_forward_link_counterexample_prefix",
         "C03.C03_client_sound", "C03.C03_cache_counterexample_prefix", "C03.ValidD_valid", "Chain.verifyChain_sound",
         "Chain.client_sound", "Chain.verifyChain_of_locally_good",
+        "C03.C03_client_sessions_sound", "C03.C03_client_run_keeps_cache_invariant",
+        "C03.C03_cache_poisoning_counterexample_before_repair", "C03.C03_cache_poisoning_repaired", "Chain.session_sound",
     ],
     "level_text": "Soundness of the common verifier (acceptance implies a finite valid chain to a genesis certificate under the configured key, "
                   "with exactly the property's link relation) and of the client's two loops with the verifier cache (under the cache "
